@@ -1174,7 +1174,8 @@ FAMILIES = {
     },
     'conc_free': {
         'mode': 'conc', 'race': True, 'ok_rcs': (0, 66), 'crash_obs': True, 'procs': {'quick': 6, 'thorough': 24}, 'post': post_races,
-        'harness_timeout': {'quick': 300, 'thorough': 1500},     # a handler that never returns would block the run for ever 'trace': 'Trace_Conc', 'drivers': [drv_conc_free],
+        # a handler that never returns would block the run for ever: the harness run is bounded
+        'harness_timeout': {'quick': 300, 'thorough': 1500}, 'trace': 'Trace_Conc', 'drivers': [drv_conc_free],
     },
     'conc_model': {
         'mc': 'MC_Service', 'mc_cfg': {'quick': 'MC_Service_quick.cfg', 'thorough': 'MC_Service_thorough.cfg'},
